@@ -63,6 +63,17 @@ Theorem C09_open_is_fresh : forall p1 p1i d' ig,
 Proof. exact open_is_fresh. Qed.
 Print Assumptions C09_open_is_fresh.
 
+(* Opening with a byte limit (MixedLogReader(max_bytes=n)) smaller than the file: returns the messages that end within the
+   limit, and never writes an index - it leaves the one it found or deletes a stale one - so a later unlimited open cannot
+   meet a partial index; a limit that covers the file is an ordinary open. *)
+Theorem C09_open_max_bytes_safe : forall p1 p1i d' ig n,
+  plausible_index p1 p1i d' ->
+  exists o, open_log_max p1 load p1i d' ig n = Opened o /\
+            (length d' <= n -> open_log_max p1 load p1i d' ig n = open_log p1 load p1i d' ig)%nat /\
+            (n < length d' -> o_msgs o = take_within n (file_frames d') /\ (o_p1i o = p1i \/ o_p1i o = None))%nat.
+Proof. exact open_max_safe. Qed.
+Print Assumptions C09_open_max_bytes_safe.
+
 (* ---- link to C08: the fresh index IS the fast indexer's output ---------------------------------------------------- *)
 (* Under C08's precondition the index fast_generate_index builds (model fi_generate, any worker count W >= 1), seen as the
    reader sees it, is [fresh]: same offsets as C08's SPEC frames, same types, same whole-second times. *)
